@@ -95,9 +95,10 @@ macro_rules! deal_with_sentinel {
             Ok(entry) => {
                 let fut = $self.inner.call($req);
                 Box::pin(async move {
-                    let response = fut.await.map_err(Into::<BoxError>::into)?;
+                    // the admission is released however the inner call ends
+                    let response = fut.await.map_err(Into::<BoxError>::into);
                     entry.exit();
-                    Ok(response)
+                    response
                 })
             }
             Err(err) => match $self.fallback {
